@@ -374,17 +374,12 @@ def install(prog):
         if type(v) is PathV:
             return v
         if type(v) is str:
-            comps = [c for c in v.split('/') if c != '']
-            # std::path drops interior '.' components when iterating, but PathBuf keeps the string; we normalise
-            # `a/./b` -> a, b only in components(); here keep '.' only when leading
-            out = []
-            for i, c in enumerate(comps):
-                if c == '.' and i > 0:
-                    continue
-                out.append(c)
-            if out and out[0] == '.' and v.startswith('/'):
-                out = out[1:]
-            return PathV(v.startswith('/'), out)
+            # a PathBuf keeps its string: interior `.` segments, doubled and trailing slashes survive to_string_lossy();
+            # only components()/comparison ignore them (PathV.canon). '' components stand for a doubled or trailing slash.
+            absolute = v.startswith('/')
+            body = v[1:] if absolute else v
+            comps = body.split('/') if body != '' else []
+            return PathV(absolute, comps)
         if type(v) is Agg and v.ty == 'Component':
             if v.variant == 1:
                 return PathV(True, ())
